@@ -39,7 +39,7 @@ COMPONENTS = {
     "real": ["EnsembleOptimizer._get_completed_variables / nested result handling", "EnsembleEvaluator._expand_gradients", "samplers", "SciPy plug-in (family 2)", "VariableScaler"],
     "stub": ["SimEvaluator", "sim/scripted optimizer", "simwrap recorder", "sim/inject sampler"],
 }
-PROBES = ["inner_result_changes_between_runs", "relative_on_unbounded_fixed_rejected", "rows_checked", "results_checked", "gradient_zero_checked", "fixed_variable_present", "all_free_mask", "single_free_mask",
+PROBES = ["all_failed_gradient_checked", "inner_result_changes_between_runs", "relative_on_unbounded_fixed_rejected", "rows_checked", "results_checked", "gradient_zero_checked", "fixed_variable_present", "all_free_mask", "single_free_mask",
           "nested_inner_result_delivered", "nested_rows_checked", "backend_sees_free_only", "real_backend", "several_samplers",
           "with_variable_transform", "perturbed_rows_checked", "multi_step"]
 REAL = ["slsqp", "nelder-mead", "differential_evolution"]
@@ -91,6 +91,14 @@ def generate(seed: int, index: int, tier: str) -> dict:
         cfg["gradient"]["perturbation_types"] = rng.choice([2, [2] * n, [2 if (not mask[i] or rng.random() < 0.5) else 1 for i in range(n)]])
         cfg["gradient"]["perturbation_magnitudes"] = round(rng.uniform(0.01, 0.1), 3)
         scn["may_reject"] = True
+    if family == 0 and not all(mask) and counter % 3 == 1:
+        # threshold 0 and a NaN-tolerant algorithm: gradient evaluations in which every perturbed row fails (so every
+        # realization fails) still report gradients - whose fixed entries are exactly zero like in any other gradient
+        cfg["realizations"]["realization_min_success"] = 0
+        cfg["optimizer"]["options"]["allow_nan"] = True
+        npert_ = cfg["gradient"]["number_of_perturbations"]
+        scn["faults"] = [{"kind": "nan", "eval": None, "real": None, "pert": p_, "col": None} for p_ in range(npert_)]
+        scn["all_failed_gradients"] = True
     # every point a back-end or a step may start from lies inside the bounds (the quantifier's
     # "initial values inside the bounds"); given as optimizer-domain images
     tm0 = TransformModel(scn.get("transforms"), n, 1, 0)
@@ -319,6 +327,8 @@ def execute(scn: dict) -> dict:
                 if g is None:
                     continue
                 probe("gradient_zero_checked")
+                if scn.get("all_failed_gradients") and np.all(np.asarray(ln.opt.realizations.failed_realizations)):
+                    probe("all_failed_gradient_checked")
                 arrs = [np.asarray(g.weighted_objective), np.asarray(g.objectives)]
                 if g.constraints is not None:
                     arrs.append(np.asarray(g.constraints))
